@@ -96,17 +96,10 @@ Fixpoint ok_stmt (il : bool) (B : list str) (s : stmt) {struct s} : bool :=
   | SIfElse c b e => ok_rhs (B ++ CD) c && okb il B b && okb il B e
   | SIfElif c b n => ok_rhs (B ++ CD) c && okb il B b && ok_stmt il B n
   | SWhile c b => ok_rhs (B ++ CD) c && okb true B b
-  | SFrom a b _ st nm collide body =>
-    (* the lower bound may contain calls; the upper bound too if the counter is hidden *)
-    ok_rhs (B ++ CD) a && ok_fromb nm (B ++ CD) b &&
-    match nm, collide with
-    | Some x, false =>   (* a fresh counter: a variable of the enclosing block for the duration of the loop *)
-      src_nameb x && negb (mem_str x (fnames FT)) && negb (mem_str x B) && negb (mem_str x (used_e b)) && step_ok ((x :: B) ++ CD) st && okb true (x :: B) body
-    | Some x, true =>    (* the counter is an existing variable (the upper bound mentions no variable) *)
-      src_nameb x && negb (mem_str x (fnames FT)) && mem_str x B && match used_e b with [] => true | _ => false end && step_ok (B ++ CD) st && okb true B body
-    | None, false => step_ok (B ++ CD) st && okb true B body     (* a hidden counter *)
-    | None, true => false
-    end
+  | SFrom _ _ _ _ _ _ _ =>
+    (* from loops are proved in the second fragment only (Compile/ClosFrag.v .. ClosTop.v), for the loop head that evaluates
+       both bounds before the counter receives its first value *)
+    false
   | SBreak => il
   | SContinue => il
   | SReturn (Some e) => ok_rhs (B ++ CD) e
@@ -124,15 +117,8 @@ Lemma ok_SIfElif : forall il B c b n, ok_stmt il B (SIfElif c b n) = ok_rhs (B +
 Proof. reflexivity. Qed.
 Lemma ok_SWhile : forall il B c b, ok_stmt il B (SWhile c b) = ok_rhs (B ++ CD) c && ok_block true B b.
 Proof. reflexivity. Qed.
-Lemma ok_SFrom : forall il B a b incl st nm collide body, ok_stmt il B (SFrom a b incl st nm collide body) =
-  ok_rhs (B ++ CD) a && ok_fromb nm (B ++ CD) b &&
-  match nm, collide with
-  | Some x, false => src_nameb x && negb (mem_str x (fnames FT)) && negb (mem_str x B) && negb (mem_str x (used_e b)) && step_ok ((x :: B) ++ CD) st && ok_block true (x :: B) body
-  | Some x, true => src_nameb x && negb (mem_str x (fnames FT)) && mem_str x B && match used_e b with [] => true | _ => false end && step_ok (B ++ CD) st && ok_block true B body
-  | None, false => step_ok (B ++ CD) st && ok_block true B body
-  | None, true => false
-  end.
-Proof. intros il B a b incl st [x|] [|] body; reflexivity. Qed.
+Lemma ok_SFrom : forall il B a b incl st nm collide body, ok_stmt il B (SFrom a b incl st nm collide body) = false.
+Proof. reflexivity. Qed.
 
 End OkStmt.
 
@@ -358,8 +344,9 @@ Lemma cstmt_SFrom : forall c sl a b incl step nm collide body st,
                     end in
   let '(ca, st) := cexpr path c a st in
   let '(cb_, st) := cexpr path c b st in
-  let endr := lregn (S (lreg st)) in
-  let st := {| fid := fid st; lreg := S (lreg st); fbuf := fbuf st |} in
+  let startr := lregn (S (lreg st)) in
+  let endr := lregn (S (S (lreg st))) in
+  let st := {| fid := fid st; lreg := S (S (lreg st)); fbuf := fbuf st |} in
   let cond := [I OP_LOAD_FAST [idn]; I OP_LOAD_FAST [endr]; I OP_BIN_OP [if incl then op_le else op_lt]] in
   let '(cbody, st) := cblockT c (Some 1) body st in
   let '(cstep, st) := match step with
@@ -368,10 +355,11 @@ Lemma cstmt_SFrom : forall c sl a b incl step nm collide body st,
   let cstep := cstep ++ [I OP_BIN_OP_ASSIGN [[43; 61]%N; idn]] in
   let full := cbody ++ cstep in
   let full := full ++ [I OP_JMP_POP [neg_off (1 + length cond + length full)]] in
-  let st := {| fid := fid st; lreg := lreg st - (match nm with Some _ => 1 | None => 2 end); fbuf := fbuf st |} in
-  (ca ++ [I (if collide then OP_STORE else OP_STORE_FAST) [idn]] ++ cb_ ++ [I OP_STORE_FAST [endr]] ++ cond
+  let st := {| fid := fid st; lreg := lreg st - (match nm with Some _ => 2 | None => 3 end); fbuf := fbuf st |} in
+  (ca ++ [I OP_STORE_FAST [startr]] ++ cb_ ++ [I OP_STORE_FAST [endr]; I OP_LOAD_FAST [startr];
+                                                I (if collide then OP_STORE else OP_STORE_FAST) [idn]] ++ cond
       ++ [I OP_WHILE_LOOP [sN (length full + 1)]] ++ resolve (length full) (length cstep) 0 full
-      ++ (if collide then [] else [I OP_DELETE_NAME_SCOPED [idn; endr]]), st).
+      ++ (if collide then [] else [I OP_DELETE_NAME_SCOPED [idn; startr; endr]]), st).
 Proof. reflexivity. Qed.
 
 Definition frag_eq (c : nat) (s : stmt) : Prop :=
@@ -468,26 +456,7 @@ Proof.
   - intros cnd b _ Hb FT SP CD il B sl st H. rewrite ok_SWhile in H. okx H.
     rewrite cstmt_SWhile, sitems_SWhile, (cexpr_rhs FT SP (B ++ CD)) by assumption.
     rewrite (cblockT_frag c b Hb FT SP CD true B _ st) by assumption. reflexivity.
-  - intros a b incl step nm col body _ _ _ Hbody FT SP CD il B sl st H.
-    rewrite ok_SFrom in H. rewrite !Bool.andb_true_iff in H. destruct H as [[Hoa Hob] H].
-    rewrite cstmt_SFrom, sitems_SFrom.
-    assert (Est1 : forall (stx : cst), {| fid := fid stx; lreg := S (lreg stx) - 1; fbuf := fbuf stx |} = stx).
-    { intros [f l0 fb]. cbn. now rewrite Nat.sub_0_r. }
-    assert (Est2 : forall (stx : cst), {| fid := fid stx; lreg := S (S (lreg stx)) - 2; fbuf := fbuf stx |} = stx).
-    { intros [f l0 fb]. cbn. now rewrite Nat.sub_0_r. }
-    assert (HB : exists B' B'', step_ok B' step = true /\ ok_block FT SP CD true B'' body = true).
-    { destruct nm as [x|]; destruct col; try discriminate; okx H; eauto. }
-    destruct HB as (B' & B'' & Hst & Hbd).
-    assert (Hstep : forall stx, (match step with Some e => cexpr path c e stx | None => ([I OP_MAKE_INT [s_one]], stx) end)
-                                = (step_code c step, stx)).
-    { intros stx. destruct step as [e|]; [|reflexivity]. cbn [step_ok] in Hst. cbn [step_code]. now rewrite (cexpr_ok B'). }
-    destruct nm as [x|].
-    + cbn [from_idn from_lr1]. rewrite (cexpr_rhs FT SP (B ++ CD)) by assumption. rewrite (cexpr_rhs FT SP (B ++ CD)) by exact (ok_fromb_rhs FT SP _ _ _ Hob).
-      cbv zeta. rewrite (cblockT_frag c body Hbody FT SP CD true B'' _ _) by assumption. cbn [lreg fid fbuf].
-      rewrite Hstep. cbn [lreg fid fbuf]. rewrite Est1. reflexivity.
-    + cbn [from_idn from_lr1]. rewrite (cexpr_rhs FT SP (B ++ CD)) by assumption. rewrite (cexpr_rhs FT SP (B ++ CD)) by exact (ok_fromb_rhs FT SP _ _ _ Hob).
-      cbv zeta. cbn [lreg fid fbuf]. rewrite (cblockT_frag c body Hbody FT SP CD true B'' _ _) by assumption. cbn [lreg fid fbuf].
-      rewrite Hstep. cbn [lreg fid fbuf]. rewrite Est2. reflexivity.
+  - intros a b incl step nm col body _ _ _ Hbody FT SP CD il B sl st H. rewrite ok_SFrom in H. discriminate H.
   - intros FT SP CD il B sl st H. reflexivity.
   - intros FT SP CD il B sl st H. reflexivity.
   - intros [e|] _ FT SP CD il B sl st H; [|discriminate]. cbn [ok_stmt] in H. cbn [cstmt sitems]. now rewrite (cexpr_rhs FT SP (B ++ CD)).
